@@ -7,6 +7,8 @@ import sys
 import numpy as np
 import xarray as xr
 
+from vlib.gen import rand_layout as gen_rand_layout
+
 PID = 'C14'
 RULE = ("exhaustive: every barrier layout x every (start, goal) cell pair x connectivity {4,8} on 2x2, 2x3, 3x2, 3x3 (thorough: "
         "also 2x4, 4x2 and 3x4 sampled), under integer and fractional coordinate geometries; random mazes up to 10x10 (walls with "
@@ -320,7 +322,7 @@ def check(rec, kind, idx, rng, tier):
                 x0=float(rng.choice([0.0, 10.0, -7.5, 100.25])), y0=float(rng.choice([0.0, 5.0, -3.25, 1000.5])),
                 ydesc=bool(rng.random() < 0.5), xdesc=bool(rng.random() < 0.2))
     names = ('y', 'x') if rng.random() < 0.7 else ('lat', 'lon')
-    surf, ys, xs = _surface(g2, geom, names, res=one_d or rng.random() < 0.2)
+    surf, ys, xs = _surface(gen_rand_layout(g2, rng), geom, names, res=one_d or rng.random() < 0.2)
     cells = list(itertools.product(range(H), range(W)))
     okc = [c for c in cells if ok[c]]
     nq = 6
